@@ -214,3 +214,40 @@ pub fn y_for_intermediates(ctx: &Ctx) -> Vec<B> {
     out.dedup();
     out
 }
+
+/// the cubic x(r) = num(r) * den(r) of the Elligator map (r = zeta r0^2) as a polynomial in r
+fn elligator_radicand_poly(ctx: &Ctx) -> Poly {
+    let c = &ctx.c;
+    let f = &c.f;
+    let (a, d) = (&c.a, &c.d);
+    let dma = f.sub(d, a);
+    let am2d = f.sub(a, &f.mul(&b(2), d));
+    let p1: Poly = vec![f.neg(&dma), d.clone()];
+    let p2: Poly = vec![f.neg(d), dma.clone()];
+    let pn: Poly = vec![am2d.clone(), am2d.clone()];
+    pmul(f, &pn, &pmul(f, &p1, &p2))
+}
+
+/// all r0 (both signs) whose Elligator radicand num*den equals `x`
+pub fn elligator_r0_for_radicand(ctx: &Ctx, x: &B, rng: &mut impl RngCore) -> Vec<B> {
+    let c = &ctx.c;
+    let f = &c.f;
+    let poly = psub(f, &elligator_radicand_poly(ctx), &vec![x.clone()]);
+    let zi = f.inv(&c.zeta).unwrap();
+    let mut out = Vec::new();
+    for r in roots(f, &poly, rng) {
+        if let Some(r0) = f.sqrt(&f.mul(&r, &zi)) {
+            out.push(f.neg(&r0));
+            out.push(r0);
+        }
+    }
+    out
+}
+
+/// the radicand of an Elligator input
+pub fn elligator_radicand(ctx: &Ctx, r0: &B) -> B {
+    let c = &ctx.c;
+    let f = &c.f;
+    let r = f.mul(&c.zeta, &f.sq(r0));
+    crate::poly::peval(f, &elligator_radicand_poly(ctx), &r)
+}
